@@ -3,7 +3,7 @@ From Coq Require Import String.
 From Coq Require Import List NArith ZArith Sorted.
 From TarsV Require Import Base.Hex Idl.Lexer Idl.LexerProofs Idl.Parser Idl.ParserProofs Idl.Corr.
 From TarsV Require Import Idl.Print Idl.Render.
-From TarsV Require Idl.Schema Idl.SchemaProofs Idl.PrintProofs Idl.RenderProofs Idl.AnalyzeProofs Idl.Accepts Idl.TablesProofs Idl.GenTablesProofs Idl.Include Idl.IncludeProofs Gen.C16Tables Gen.C16Translated Xlate.GoSem Codec.GenCodec Codec.Corr.
+From TarsV Require Idl.Schema Idl.SchemaProofs Idl.PrintProofs Idl.RenderProofs Idl.AnalyzeProofs Idl.Accepts Idl.TablesProofs Idl.GenTablesProofs Idl.Include Idl.IncludeProofs Idl.IncGraph Idl.IncGraphProofs Gen.C16Tables Gen.C16Translated Xlate.GoSem Codec.GenCodec Codec.Corr.
 Import ListNotations.
 Open Scope N_scope.
 
@@ -148,6 +148,40 @@ Theorem C16_imports_cover_instance :
   Include.check_tname_t top [Include.PT mid [Include.PT leaf []]] (VVec (VName (bs "Leaf::Item") CNone)) = Ok (VVec (VName (bs "Leaf::Item") CStruct)) /\
   Include.recorded_deps top [Include.PT mid [Include.PT leaf []]] (VVec (VName (bs "Leaf::Item") CNone)) = [bs "Leaf"].
 Proof. exact IncludeProofs.imports_cover_instance. Qed.
+(* ---- several modules in ONE file (Idl/IncGraph.v): the graph of file nodes parseModule builds - each further module's
+   sub-parser gets a COPY of the first module's node, the first module's node later gets the further modules and the
+   included files as children - is acyclic: every edge goes to a node created earlier.  FindTNameType / FindEnumName walk
+   it recursively and stop only on a hit: on such a graph the walk ends for every name, declared or not.  Handing the
+   sub-parser the live node instead of the copy (alias) makes a cycle, and the walk for an undeclared name then never
+   ends, whatever bound on the depth (the code: fatal stack overflow).  The harness walks the code's graph on every
+   accepted and rejected input (tars2go/parse/include-graph-cyclic). ---- *)
+Open Scope nat_scope.
+Theorem C16_include_graph_acyclic : forall k ninc u v,
+  u <= IncGraph.id_P k ninc -> In v (IncGraph.children false k ninc u) -> v < u.
+Proof. exact IncGraphProofs.copy_edges_descend. Qed.
+Theorem C16_lookup_terminates_on_acyclic : forall (g : nat -> list nat) has,
+  (forall u v, In v (g u) -> v < u) -> forall fuel u, u < fuel -> IncGraph.lookup fuel g has u <> None.
+Proof. exact IncGraphProofs.lookup_terminates. Qed.
+Theorem C16_multi_module_lookup_terminates : forall k ninc has u, u <= IncGraph.id_P k ninc ->
+  IncGraph.lookup (S (IncGraph.id_P k ninc))
+    (fun w => if Nat.leb w (IncGraph.id_P k ninc) then IncGraph.children false k ninc w else []) has u <> None.
+Proof. exact IncGraphProofs.copy_lookup_terminates. Qed.
+Theorem C16_aliased_first_module_refuted : forall k ninc, 1 <= k ->
+  (In (IncGraph.id_N ninc 1) (IncGraph.children true k ninc (IncGraph.id_P k ninc)) /\
+   In (IncGraph.id_P k ninc) (IncGraph.children true k ninc (IncGraph.id_N ninc 1))) /\
+  forall fuel, IncGraph.lookup fuel (IncGraph.children true k ninc) (fun _ => false) (IncGraph.id_P k ninc) = None.
+Proof. intros k ninc H. exact (conj (IncGraphProofs.alias_cycle k ninc H) (fun fuel => IncGraphProofs.alias_lookup_diverges k ninc fuel H)). Qed.
+Theorem C16_include_graph_instance :
+  map (IncGraph.children false 2 1) [0; 1; 2; 3; 4; 5] = [[]; []; [1; 0]; [2]; [3; 0]; [2; 4; 0]] /\
+  IncGraph.lookup 6 (IncGraph.children false 2 1) (fun u => Nat.eqb u 0) 5 = Some (Some 0) /\
+  IncGraph.lookup 6 (IncGraph.children false 2 1) (fun _ => false) 5 = Some None.
+Proof. exact IncGraphProofs.copy_instance. Qed.
+Open Scope N_scope.
+Print Assumptions C16_include_graph_acyclic.
+Print Assumptions C16_lookup_terminates_on_acyclic.
+Print Assumptions C16_multi_module_lookup_terminates.
+Print Assumptions C16_aliased_first_module_refuted.
+Print Assumptions C16_include_graph_instance.
 Print Assumptions C16_defining_module_found.
 Print Assumptions C16_imports_cover.
 Print Assumptions C16_imports_cover_instance.
